@@ -63,6 +63,11 @@ func vfJoinState(nonce, redir string, encoded bool) string {
 const vfB64URL = "ABCDEFGHIJKLMNOPQRSTUVWXYZabcdefghijklmnopqrstuvwxyz0123456789-_"
 
 func vfC03(w *vfWorld) {
+	if w.variant == "race" {
+		// logins of many browsers truly in parallel: state, nonce and verifier handling must not share anything
+		vfFreeRun(w, "C03")
+		return
+	}
 	t := w.tape
 	cs := &vfC03Case{}
 	w.sample = cs
